@@ -62,6 +62,8 @@ MakesNew(x) == x \in {"K", "I", "M"}
 Lay(l) == CASE l = "line"   -> [tc0 |-> 6, tc1 |-> 46, cend |-> 50, cbeg |-> 0, slines |-> 1, elines |-> 1, len |-> 50, elen |-> 14]
             [] l = "inline" -> [tc0 |-> 6, tc1 |-> 46, cend |-> 53, cbeg |-> 5, slines |-> 1, elines |-> 1, len |-> 58, elen |-> 22]
             [] l = "cont"   -> [tc0 |-> 6, tc1 |-> 46, cend |-> 13, cbeg |-> 0, slines |-> 2, elines |-> 2, len |-> 50, elen |-> 17]
+            \* "mltag": the start tag itself spans two lines; tc1 is the column of '>' on the SECOND line
+            [] l = "mltag"  -> [tc0 |-> 6, tc1 |-> 25, cend |-> 32, cbeg |-> 0, slines |-> 2, elines |-> 1, len |-> 28, elen |-> 17]
 CodeLen == 6
 
 (* Character ranges (0-based, half-open) produced by the character diff for each M kind.
@@ -73,9 +75,13 @@ Rng(kind, l) ==
     [] kind = "post"   -> <<Lay(l).cend + 2, Lay(l).cend + 3>>   \* content after the start comment, same line
     [] kind = "endcmt" -> <<Lay(l).cbeg + 12, Lay(l).cbeg + 13>> \* inside the end-tag comment
     [] kind = "pre"    -> <<1, 2>>                           \* content before the end comment, same line
+    [] kind = "attr2"  -> <<5, 6>>                           \* attribute on the tag's second line, left of the '<' column
+    [] kind = "cmtA2"  -> <<27, 28>>                         \* comment text after '>' on the tag's second line
     [] kind = "full"   -> <<0, l>>                           \* unrelated old text: everything replaced (l = new length)
 
-KindsS(l) == {"attr", "cmtB", "cmtA", "full"} \cup (IF l = "inline" THEN {"post"} ELSE {})
+KindsS(l) == IF l = "mltag" THEN {"attr", "cmtB", "full"}
+             ELSE {"attr", "cmtB", "cmtA", "full"} \cup (IF l = "inline" THEN {"post"} ELSE {})
+KindsC(l) == IF l = "mltag" THEN {"attr2", "cmtA2"} ELSE {}
 KindsE(l) == {"endcmt", "full"} \cup (IF l = "inline" THEN {"pre"} ELSE {})
 
 \* op indices of the first/last line of the start-tag comment and of the end-tag comment
@@ -84,7 +90,7 @@ SLast(b)  == b.ps + Lay(b.lay).slines - 1
 EFirst(b) == b.pe - Lay(b.lay).elines + 1
 ELast(b)  == b.pe
 
-TagLines(bs) == UNION {{SFirst(bs[n]), ELast(bs[n])} : n \in 1..Len(bs)}
+TagLines(bs) == UNION {{SFirst(bs[n]), ELast(bs[n])} \cup (IF bs[n].lay = "mltag" THEN {bs[n].ps + 1} ELSE {}) : n \in 1..Len(bs)}
 CmtLines(bs) == UNION {SFirst(bs[n])..SLast(bs[n]) \cup EFirst(bs[n])..ELast(bs[n]) : n \in 1..Len(bs)}
 
 ----------------------------------------------------------------------------
@@ -110,7 +116,9 @@ Build(o) == BuildFrom(o, 1, <<>>, <<>>)
 KindOfOp(bs, k) ==
   LET S == {n \in 1..Len(bs) : bs[n].ps = k}
       E == {n \in 1..Len(bs) : bs[n].pe = k}
+      C == {n \in 1..Len(bs) : bs[n].lay = "mltag" /\ bs[n].ps + 1 = k}
   IN IF S # {} THEN [kind |-> bs[CHOOSE n \in S : TRUE].ks, lay |-> bs[CHOOSE n \in S : TRUE].lay]
+     ELSE IF C # {} THEN [kind |-> bs[CHOOSE n \in C : TRUE].kc, lay |-> "mltag"]
      ELSE [kind |-> bs[CHOOSE n \in E : TRUE].ke, lay |-> bs[CHOOSE n \in E : TRUE].lay]
 
 \* length of the new line produced by op k
@@ -121,7 +129,7 @@ NewLen(bs, k) ==
       D == {n \in 1..Len(bs) : k \in EFirst(bs[n])..(ELast(bs[n]) - 1)}
   IN IF S # {} THEN Lay(bs[CHOOSE n \in S : TRUE].lay).len
      ELSE IF E # {} THEN Lay(bs[CHOOSE n \in E : TRUE].lay).elen
-     ELSE IF C # {} THEN 13
+     ELSE IF C # {} THEN (IF bs[CHOOSE n \in C : TRUE].lay = "mltag" THEN 32 ELSE 13)
      ELSE IF D # {} THEN 5
      ELSE CodeLen
 
@@ -141,13 +149,14 @@ Compatible(b1, b2) ==
      \/ (SLast(b1) < SFirst(b2) /\ ELast(b2) < EFirst(b1))       \* b2 nested in b1
 
 Placements(o) == {p \in [ps : 1..Len(o), pe : 1..Len(o), lay : Layouts] :
-                     LET b == [ps |-> p.ps, pe |-> p.pe, lay |-> p.lay, ks |-> "-", ke |-> "-"] IN
+                     LET b == [ps |-> p.ps, pe |-> p.pe, lay |-> p.lay, ks |-> "-", ke |-> "-", kc |-> "-"] IN
                      /\ b.ps < b.pe /\ SLast(b) < EFirst(b) /\ ELast(b) <= Len(o) /\ EFirst(b) >= 1
                      /\ \A k \in SFirst(b)..SLast(b) \cup EFirst(b)..ELast(b) : MakesNew(o[k])
-                     /\ \A k \in (SFirst(b) + 1)..SLast(b) \cup EFirst(b)..(ELast(b) - 1) : o[k] # "M"}
-WithKinds(o, p) == {[ps |-> p.ps, pe |-> p.pe, lay |-> p.lay, ks |-> x, ke |-> y] :
+                     /\ \A k \in (SFirst(b) + 1)..SLast(b) \cup EFirst(b)..(ELast(b) - 1) : o[k] = "M" => p.lay = "mltag"}
+WithKinds(o, p) == {[ps |-> p.ps, pe |-> p.pe, lay |-> p.lay, ks |-> x, ke |-> y, kc |-> z] :
                       x \in (IF o[p.ps] = "M" THEN KindsS(p.lay) ELSE {"-"}),
-                      y \in (IF o[p.pe] = "M" THEN KindsE(p.lay) ELSE {"-"})}
+                      y \in (IF o[p.pe] = "M" THEN KindsE(p.lay) ELSE {"-"}),
+                      z \in (IF p.lay = "mltag" /\ o[p.ps + 1] = "M" THEN KindsC(p.lay) ELSE {"-"})}
 Candidates(o) == UNION {WithKinds(o, p) : p \in Placements(o)}
 
 Init ==
@@ -229,7 +238,8 @@ Walk(d, bs, f1, f2) == WalkAll(d, bs, 1, <<>>, FALSE, 0, f1, f2)
 
 Geo(o, b) ==
   LET L == Lay(b.lay) IN
-  [tag0l |-> NewNo(o, b.ps), tag0c |-> L.tc0 + 1, tag1l |-> NewNo(o, b.ps), tag1c |-> L.tc1 + 1,
+  [tag0l |-> NewNo(o, b.ps), tag0c |-> L.tc0 + 1,
+   tag1l |-> IF b.lay = "mltag" THEN NewNo(o, b.ps + 1) ELSE NewNo(o, b.ps), tag1c |-> L.tc1 + 1,
    cs_l  |-> NewNo(o, SLast(b)),  cs_c |-> L.cend + 1,
    ce_l  |-> NewNo(o, EFirst(b)), ce_c |-> L.cbeg + 1]
 
@@ -293,15 +303,20 @@ Harmless(o, b, k) ==
   \/ Far(b, k)
   \/ (k = b.ps /\ o[k] = "M" /\ b.ks \in {"cmtB", "cmtA"})
   \/ (k = b.pe /\ o[k] = "M" /\ b.ke = "endcmt")
-AttrOnly(o, b, k) == k = b.ps /\ o[k] = "M" /\ b.ks = "attr"
+  \/ (b.lay = "mltag" /\ k = b.ps + 1 /\ o[k] = "M" /\ b.kc = "cmtA2")
+AttrOnly(o, b, k) == \/ (k = b.ps /\ o[k] = "M" /\ b.ks = "attr")
+                     \/ (b.lay = "mltag" /\ k = b.ps + 1 /\ o[k] = "M" /\ b.kc = "attr2")
 
 CleanM(o, b) == /\ (o[b.ps] = "M" => Alone(o, b.ps))
                 /\ (o[b.pe] = "M" => Alone(o, b.pe))
+                /\ (b.lay = "mltag" /\ o[b.ps + 1] = "M" => Alone(o, b.ps + 1))
 
 MustNotContent(o, b) == /\ ~MustContent(o, b)
                         /\ CleanM(o, b)
                         /\ \A k \in 1..Len(o) : Harmless(o, b, k) \/ AttrOnly(o, b, k)
-MustSelect(o, b)     == MustContent(o, b) \/ (o[b.ps] = "M" /\ b.ks = "attr" /\ Alone(o, b.ps))
+MustSelect(o, b)     == \/ MustContent(o, b)
+                        \/ (o[b.ps] = "M" /\ b.ks = "attr" /\ Alone(o, b.ps))
+                        \/ (b.lay = "mltag" /\ o[b.ps + 1] = "M" /\ b.kc = "attr2" /\ Alone(o, b.ps + 1))
 MustNotSelect(o, b)  == /\ ~MustSelect(o, b)
                         /\ CleanM(o, b)
                         /\ \A k \in 1..Len(o) : Harmless(o, b, k)
